@@ -81,10 +81,13 @@ def expected_value(idx):
     return {0: "inf", 1: "nan", 2: Fraction(0), 3: Fraction(1), 4: None}[idx]
 
 
-def check_case(ctx, itype, scen, table, std, pred, ref, cache, ev=None, im=None, extra=None):
-    """ev: an evaluator built earlier with (table, std) (other handlers may have been constructed since); im: evaluated metrics"""
+def check_case(ctx, itype, scen, table, std, pred, ref, cache, ev=None, im=None, extra=None, decision=None):
+    """ev: an evaluator built earlier with (table, std) (other handlers may have been constructed since); im: evaluated metrics;
+    decision: (metric, threshold) no instance of the input passes"""
     im_ = im or IM
     cfg = {"input": itype, "imetrics": im_, "gmetrics": [], "table": table, "std": std}
+    if decision is not None:
+        cfg["dmetric"], cfg["dthr"] = decision
     if ev is None:
         ev = impl.make_evaluator(cfg)
     out = impl.evaluate(ev, pred.copy(), ref.copy())
@@ -174,6 +177,22 @@ def run(ctx):
         res = check_case(ctx, it, sc, table, std, pred, ref, None)
         if res:
             recs.append((it, sc, table, std) + res)
+    # zero true positives because no matched pair passes the DECISION threshold (instances on both sides, overlapping, matched):
+    # the NORMAL entry applies exactly as when nothing overlaps; thresholds at the end of the scale for either direction
+    for _ in range(ctx.scale(40, 400)):
+        it = rng.choice(["matched", "unmatched", "semantic"])
+        table = {m: [rng.randrange(5) for _ in range(4)] for m in impl.METRICS}
+        std = rng.randrange(5)
+        w = rng.randint(8, 12)
+        pred = np.zeros((3, w), np.uint8); ref = np.zeros((3, w), np.uint8)
+        n = rng.randint(1, 2)
+        for k in range(n):
+            lab = 1 if it == "semantic" else k + 1
+            a = rng.randint(2, 3)
+            ref[2 * k, 1:1 + a] = lab
+            pred[2 * k, 1:1 + a + rng.randint(1, 2)] = lab          # the prediction is larger: IoU >= 1/2, ASSD > 0, RVD > 0
+        dm, thr = rng.choice([("IOU", 1.0), ("DSC", 1.0), ("ASSD", 0.0), ("RVD", 0.0), ("IOU", 0.95), ("ASSD", 0.01)])
+        check_case(ctx, it, "NORMAL", table, std, pred, ref, None, decision=(dm, thr), extra={"decision": [dm, thr]})
     # several handlers alive at once (custom tables, tables that list exactly the evaluated metrics, default-constructed ones):
     # all evaluators of a batch are built FIRST and used afterwards in another order -- a handler's prescription must not
     # depend on which other handlers were constructed after it
@@ -276,6 +295,10 @@ def replay(path):
     d = json.loads(open(path).read())
     pred, ref = common.arr_from_json(d["pred"]), common.arr_from_json(d["ref"])
     cfg = {"input": d["input"], "imetrics": d.get("imetrics") or IM, "gmetrics": [], "table": d.get("table") or d.get("table1"), "std": d.get("std", 1)}
+    if d.get("decision"):
+        cfg["dmetric"], cfg["dthr"] = d["decision"]
+        print("decision metric / threshold (no instance of this input passes it):", d["decision"])
+    print("evaluate() options for this input:", impl.options_for(pred, ref))
     if d.get("single_instance_group"):
         from panoptica.utils.segmentation_class import SegmentationClassGroups
         from panoptica.utils.label_group import LabelGroup
